@@ -80,3 +80,10 @@ def build_and_audit(prop, extra_modules=()):
     res["obligations"] = len(res["theorems"])
     res["ok"] = (res["obligations"] > 0 and not res["bad"])
     return res
+
+
+def leanchecker(modules, timeout=1800):
+    """thorough tier: re-check the compiled .olean files of the property modules with the toolchain's
+    independent checker"""
+    rc, out, dt = _run(["lake", "env", "leanchecker"] + list(modules), timeout=timeout)
+    return {"ok": rc == 0, "seconds": round(dt, 1), "modules": list(modules), "tail": out[-400:]}
